@@ -12,7 +12,7 @@ echo "== suite with patch"; (cd "$WT" && PYTHONPATH="$WT" /venv/bin/python -m py
 echo "== demo with patch (expect FAIL/1)"; (cd "$WT" && PYTHONPATH="$WT" timeout 120 /venv/bin/python -W ignore "$D/demo.py" >$ROOT/demo_patched.txt 2>&1; echo "rc=$?"; tail -3 $ROOT/demo_patched.txt)
 git -C "$WT" checkout -q -- .
 echo "== checks on patched tree"
-PROPS="$@"; [ -z "$PROPS" ] && PROPS="C01 C02 C03 C04 C05 C06 C07 C08 C09 C10 C11 C12 C13 C14 C15 C16 C17 C19 C20"
+PROPS="$@"; [ -z "$PROPS" ] && PROPS="C01 C02 C03 C04 C05 C06 C07 C08 C09 C10 C11 C12 C13 C14 C15 C16 C17 C18 C19 C20"
 rm -rf $ROOT/scratch && mkdir -p $ROOT/scratch && cp -r /repo/pymbolic $ROOT/scratch/pymbolic && (cd $ROOT/scratch && git apply --unsafe-paths "$D/patch.diff" 2>/dev/null || patch -p1 -s < "$D/patch.diff")
 for p in $PROPS; do
   out=$(cd /verif && PV_REPO=$ROOT/scratch ./check $p --no-evidence 2>&1); rc=$?
